@@ -170,8 +170,8 @@ j_c17w = j_notes(r"SECOND-CLOSE-EMITS|FLUSH-PREFIX-FAIL|WRITE-AFTER-CLOSE-ACCEPT
 j_c17r = j_notes(r"READ-AFTER-EOF-CONSUMES|WRONG-CONTENT", "Reader lifecycle broken", "reference model")
 
 
-def T(mod, *names, kind="full"):
-    return [dict(name=f"Lz4V.Props.{mod}.{n}", kind=kind, module=f"Lz4V.Props.{mod}") for n in names]
+def T(mod, *names, kind="full", ns=None):
+    return [dict(name=f"Lz4V.Props.{ns or mod}.{n}", kind=kind, module=f"Lz4V.Props.{mod}") for n in names]
 
 T_FAST = T("C01fast", "decode_emitAll", "c11_fast", "c01_fast")
 T_HC = T("C01hc", "c11_hc", "c01_hc")
@@ -180,7 +180,7 @@ T_GO = T("C04go", "c03_go") + T("C04go", "c04_go_partial", "c04_go_indep_partial
 
 T_ASM = T("C03asm", "c03_asm") + T("C03asm", "c04_asm_partial", kind="full under `no dictionary or dst base address >= 65536` (every Go heap address)") \
     + T("C03asm", "c04_asm_false", kind="counterexample: the assembly rejects a valid dictionary offset when &dst < 65536 (unreachable address)")
-T_C09 = T("C09", "idx_valid", "c09_writer", "c09_writer_fast", "c09_clean") + T("C09full", "hcCorrect", "c09_writer_all", "c09_clean_all")
+T_C09 = T("C09", "idx_valid", "c09_writer", "c09_writer_fast", "c09_clean") + T("C09full", "hcCorrect", "c09_writer_all", "c09_clean_all", ns="C09")
 T_C19 = T("C19", "c19_accept_iff", "c19_bad_checksum", "c19_bad_block_size", "c19_size", "c19_bad_magic", "c19_spec", "c19_reader_size")
 
 
@@ -191,7 +191,7 @@ def x_c20(run):
 PROPS = {
     "C20": dict(runs=[], extra=[x_c20], theorems=[],
                 rule="each case = (flag set, generated file, mode, file or stdin/stdout); every case is non-trivial; distinct = distinct case description"),
-    "C02": dict(runs=[FW("fw", judge=j_c02w), FR("fr", judge=j_c02r)], theorems=T("C09full", "c09_writer_all")),
+    "C02": dict(runs=[FW("fw", judge=j_c02w), FR("fr", judge=j_c02r)], theorems=T("C09full", "c09_writer_all", ns="C09")),
     "C05": dict(runs=[FR("frmut", judge=j_c05), FR("fr", judge=j_c05)], theorems=[]),
     "C06": dict(runs=[FR("frtrunc", judge=j_c06)], theorems=[]),
     "C07": dict(runs=[FR("frhost", judge=j_c07), FR("frmut", judge=j_c07)], theorems=[]),
